@@ -19,7 +19,7 @@ def run(ctx):
         check_guarded(ctx, "drop_object|actor-identity", b, call_blocks(b, r"kernel_drop_node$"), [g], "kernel_drop_node in drop_object")
         bp_consts = sorted(c for bb in ctx.bodies_of(root) for c in bb.fn.consts if c.endswith("_BLUEPRINT"))
         ctx.ob("drop_object|exemption-constants",
-               {c.rsplit("::", 1)[1] for c in bp_consts} == {"FUNGIBLE_PROOF_BLUEPRINT", "NON_FUNGIBLE_PROOF_BLUEPRINT"},
+               {c.rsplit("::", 1)[-1] for c in bp_consts} == {"FUNGIBLE_PROOF_BLUEPRINT", "NON_FUNGIBLE_PROOF_BLUEPRINT"},
                f"blueprint-name constants mentioned in drop_object: {bp_consts}", b.loc())
         # both InvalidDropAccess rejections are live
         n = len(agg_blocks(b, r"errors::InvalidDropAccess$"))
